@@ -1,4 +1,4 @@
-\* quick: 2 nodes, 2 entries, separate in-channel, asynchronous HWM updates, <=2 leadership changes, no restart
+\* quick: 2 nodes, 2 entries, separate in-channel, asynchronous HWM updates, <=3 leadership signals, no restart
 SPECIFICATION Spec
 CONSTANTS
   Node = {n1, n2}
@@ -7,7 +7,8 @@ CONSTANTS
   BatchSz = 2
   InCap = 2
   AsyncHWM = TRUE
-  MaxFlips = 2
+  SigCap = 2
+  MaxFlips = 3
   MaxLeaders = 1
   MaxRestarts = 0
   MaxSnaps = 0
@@ -20,7 +21,8 @@ CONSTANTS
   HWMAfterSendOK = TRUE
   PruneToHWMOnly = TRUE
   RewindCursor = TRUE
+  ParkedKeptUntilSent = TRUE
   RestartHWMBelowLowest = TRUE
   DropReapplied = TRUE
 SYMMETRY Sym
-INVARIANTS TypeOK Labelled NoSkip TenureOrder TakenStored KeysBounded
+INVARIANTS TypeOK Labelled NoSkip TenureOrder TakenStored KeysBounded LoopShape
